@@ -149,6 +149,12 @@ fn gen_pool(src: &mut Src) -> (Vec<Value>, Vec<String>) {
     queries.push("$..[?@==1]".to_string());
     queries.push("$..[?@==2]".to_string());
     queries.push("$..*".to_string());
+    // acceptance is part of the result: near misses of pool queries (forbidden blanks) must stay Err whatever was parsed before
+    let k = queries.len();
+    for i in 0..2 {
+        let base = queries[src.below(k)].clone();
+        queries.push(if i == 0 { format!(" {}", base) } else { format!("{}\n", base) });
+    }
     (docs.iter().map(|d| d.to_value()).collect(), queries)
 }
 
